@@ -16,9 +16,12 @@ RULE = ('physics: 8 models (4 contact-free articulated, 4 with ground '
         'on 2 states per pipeline. wrappers: scripted env of C15 under '
         'training.wrap with all 64 termination schedules of length 6 as '
         'members in two different member orders vs each member run alone; '
-        'DomainRandomizationVmapWrapper over a 2^3 (3^3 thorough) alphabet of '
-        'mass/friction/gear scalings vs a solo env built from that member\'s '
-        'system. non-trivial = batch whose members differ; distinct = '
+        'DomainRandomizationVmapWrapper over a 2^(4-1) fractional factorial '
+        '(thorough: the full 3x3x3x2 product) of mass/friction/gear/timestep '
+        'scalings on 4 bundled envs vs a solo env built from that member\'s '
+        'system by re-running the PipelineEnv constructor with it; the reset '
+        'state and 5 steps are compared on observation, reward, done and '
+        'every pipeline-state leaf. non-trivial = batch whose members differ; distinct = '
         '(model, pipeline, batch) tuples')
 ASSUMPTIONS = [
     'batched vs solo executables may re-associate sums: 1e-7*(1+|v|); '
@@ -295,21 +298,34 @@ def check_domain_randomization(res, tier, seed):
   from brax import envs
   from brax.envs.wrappers import training
   vals = (0.5, 2.0) if tier == 'quick' else (0.5, 1.0, 2.0)
-  combos = list(itertools.product(vals, repeat=3))
+  # (mass, friction, gear, timestep) factors. quick: the 2^(4-1) fractional
+  # factorial (every triple of factors takes all its combinations);
+  # thorough: the full product
+  if tier == 'quick':
+    combos = [c + ((0.5 if (c.count(2.0) % 2) else 1.0),)
+              for c in itertools.product(vals, repeat=3)]
+  else:
+    combos = list(itertools.product(vals, vals, vals, (0.5, 1.0)))
   n = len(combos)
 
   def rand_fn(sys):
     m = jp.asarray([c[0] for c in combos])
     fr = jp.asarray([c[1] for c in combos])
     ge = jp.asarray([c[2] for c in combos])
+    ts = jp.asarray([c[3] for c in combos])
     in_axes = jax.tree.map(lambda x: None, sys)
     in_axes = in_axes.tree_replace({'link.inertia.mass': 0,
-                                    'geom_friction': 0, 'actuator.gear': 0})
+                                    'geom_friction': 0, 'actuator.gear': 0,
+                                    'opt.timestep': 0})
     sysv = sys.tree_replace({
         'link.inertia.mass': m[:, None] * sys.link.inertia.mass[None],
         'geom_friction': fr[:, None, None] * sys.geom_friction[None],
-        'actuator.gear': ge[:, None] * sys.actuator.gear[None]})
+        'actuator.gear': ge[:, None] * sys.actuator.gear[None],
+        'opt.timestep': ts * sys.opt.timestep})
     return sysv, in_axes
+
+  def leaves(ps):
+    return [np.asarray(x) for x in jax.tree_util.tree_leaves(ps)]
   for name, backend, inner in (('inverted_pendulum', 'generalized', False),
                                ('inverted_pendulum', 'positional', True),
                                ('reacher', 'positional', False),
@@ -325,52 +341,68 @@ def check_domain_randomization(res, tier, seed):
     acts = rng.uniform(-1, 1, (5, n, env.action_size)).astype(np.float64)
     st = jax.jit(wenv.reset)(keys)
     step = jax.jit(wenv.step)
-    traj = []
+    traj = [(np.asarray(st.obs), np.asarray(st.reward), np.asarray(st.done),
+             leaves(st.pipeline_state))]
     for t in range(5):
       st = step(st, jp.asarray(acts[t]))
       traj.append((np.asarray(st.obs), np.asarray(st.reward),
-                   np.asarray(st.done)))
-    # solo: one executable with the member's system as an argument
+                   np.asarray(st.done), leaves(st.pipeline_state)))
+    # solo: an env BUILT from the member's system (the real PipelineEnv
+    # constructor is re-run with it), one executable with the system as an
+    # argument
     env2 = envs.get_environment(name, backend=backend)
     if inner:
       env2 = training.EpisodeWrapper(env2, 1000, action_repeat=2)
     sysv, _ = rand_fn(base_sys)
+    u = env2.unwrapped
+    nf, dbg = u._n_frames, u._debug
+
+    def build(sys):
+      envs.PipelineEnv.__init__(u, sys, backend=backend, n_frames=nf,
+                                debug=dbg)
 
     def solo_reset(sys, key):
-      env2.unwrapped.sys = sys
+      build(sys)
       return env2.reset(key)
 
     def solo_step(sys, s, a):
-      env2.unwrapped.sys = sys
+      build(sys)
       return env2.step(s, a)
     jr, js = jax.jit(solo_reset), jax.jit(solo_step)
     for m in range(n):
       sys_m = base_sys.tree_replace({
           'link.inertia.mass': sysv.link.inertia.mass[m],
           'geom_friction': sysv.geom_friction[m],
-          'actuator.gear': sysv.actuator.gear[m]})
+          'actuator.gear': sysv.actuator.gear[m],
+          'opt.timestep': sysv.opt.timestep[m]})
       sys_m = phys.strip(sys_m)
       s = jr(sys_m, keys[m])
       if inner:
         s.info.update(steps=jp.zeros(()), truncation=jp.zeros(()))
       res['evaluations'] += 1
       res['nontrivial'] += 1
-      for t in range(5):
-        s = js(sys_m, s, jp.asarray(acts[t, m]))
+      for t in range(6):
+        if t:
+          s = js(sys_m, s, jp.asarray(acts[t - 1, m]))
         want = (np.asarray(s.obs), np.asarray(s.reward), np.asarray(s.done))
-        got = tuple(x[m] for x in traj[t])
+        got = tuple(x[m] for x in traj[t][:3])
         # at a terminal step the wrapped env already shows the reset
-        # observation (auto-reset): compare reward and done only
+        # observation and state (auto-reset): compare reward and done only
         pairs = list(zip(got, want))[1 if float(s.done) else 0:]
-        e = max(np.abs(np.asarray(g) - w).max() / (1 + np.abs(w).max())
-                for g, w in pairs)
+        if not float(s.done):
+          pairs += [(g[m], w) for g, w in
+                    zip(traj[t][3], leaves(s.pipeline_state))]
+        e = max([np.abs(np.asarray(g, float) - np.asarray(w, float)).max()
+                 / (1 + np.abs(w).max()) for g, w in pairs if np.size(w)])
         if not e <= 1e-6:
           res['violations'].append(dict(
               key='C07:domain-randomization',
-              what='%s/%s: member %d (mass x%g friction x%g gear x%g) differs '
-              'from a solo env built from its system by %.3g at step %d' % (
-                  name, backend, m, combos[m][0], combos[m][1], combos[m][2],
-                  e, t), case=dict(kind='dr', seed=seed, tier=tier)))
+              what='%s/%s: member %d (mass x%g friction x%g gear x%g timestep '
+              'x%g) differs from a solo env built from its system by %.3g '
+              'after %d steps (observation, reward, done and every pipeline '
+              'state leaf compared)' % ((name, backend, m) + tuple(combos[m])
+                                        + (e, t)),
+              case=dict(kind='dr', seed=seed, tier=tier)))
           return
         if float(s.done):
           break
